@@ -304,6 +304,7 @@ impl Database {
 
         db.ensure_catalog()?;
         db.ensure_system_tables()?;
+        db.restore_next_row_id()?;
 
         let recovery_info = RecoveryInfo {
             frames_recovered,
@@ -531,6 +532,66 @@ impl Database {
             self.save_catalog()?;
         }
 
+        Ok(())
+    }
+
+    /// Row keys are allocated from one in-memory counter; after a reopen it has to
+    /// continue above the largest row key any table holds, otherwise the first INSERT
+    /// collides with an existing row ("key already exists").
+    fn restore_next_row_id(&self) -> Result<()> {
+        use crate::storage::TableFileHeader;
+        use std::sync::atomic::Ordering;
+
+        let tables: Vec<(String, String)> = {
+            let catalog_guard = self.shared.catalog.read();
+            let catalog = catalog_guard.as_ref().unwrap();
+            catalog
+                .schemas()
+                .iter()
+                .flat_map(|(schema_name, schema)| {
+                    schema
+                        .tables()
+                        .keys()
+                        .map(move |table_name| (schema_name.to_string(), table_name.to_string()))
+                })
+                .collect()
+        };
+
+        let mut max_row_id = 0u64;
+        let mut file_manager_guard = self.shared.file_manager.write();
+        let file_manager = file_manager_guard.as_mut().unwrap();
+        for (schema_name, table_name) in &tables {
+            if !file_manager.table_exists(schema_name, table_name) {
+                continue;
+            }
+            let storage_arc = file_manager.table_data_mut(schema_name, table_name)?;
+            let mut storage = storage_arc.write();
+            let root_page = TableFileHeader::from_bytes(storage.page(0)?)?.root_page();
+            if root_page == 0 {
+                continue;
+            }
+            let btree = crate::btree::BTree::new(&mut *storage, root_page)?;
+            let mut cursor = btree.cursor_last()?;
+            if !cursor.valid() {
+                // rightmost leaf emptied by deletes: walk forward to the real last key
+                cursor = btree.cursor_first()?;
+                while cursor.valid() {
+                    if let Ok(bytes) = <[u8; 8]>::try_from(cursor.key()?) {
+                        max_row_id = max_row_id.max(u64::from_be_bytes(bytes));
+                    }
+                    if !cursor.advance()? {
+                        break;
+                    }
+                }
+                continue;
+            }
+            if let Ok(bytes) = <[u8; 8]>::try_from(cursor.key()?) {
+                max_row_id = max_row_id.max(u64::from_be_bytes(bytes));
+            }
+        }
+        self.shared
+            .next_row_id
+            .fetch_max(max_row_id + 1, Ordering::Relaxed);
         Ok(())
     }
 
